@@ -135,11 +135,12 @@ def build_rms(c):
         if c["bias"] == "post":
             x = g.op("Add", x, bias)
         outs.append(x)
+    miss = c.get("miss", "none")  # one near-miss at a time: reduction axis spelled 2, attributes left to their defaults, x**3
     cdt = "f32" if c["cast"] else dt
     xc = g.op("Cast", x, to=F32) if c["cast"] else x
-    sq = g.op("Pow", xc, g.const(np.array(float(c["expo"]), NP[cdt])))
-    ax = -1 if c["axis"] == "neg" else 2
-    kw = {"keepdims": 1, "noop_with_empty_axes": 0} if c["attrs"] else {}
+    sq = g.op("Pow", xc, g.const(np.array(3.0 if miss == "expo" else 2.0, NP[cdt])))
+    ax = 2 if miss == "axis" else -1
+    kw = {} if miss == "attrs" else {"keepdims": 1, "noop_with_empty_axes": 0}
     ms = g.op("ReduceMean", sq, g.const(np.array([ax], np.int64)), **kw)
     mse = g.op("Add", ms, g.const(np.array(EPS[c["eps"]], NP[cdt])))
     rms = g.op("Sqrt", mse)
@@ -189,11 +190,12 @@ def build_skipln(c):
     s = g.op("Add", sk, x) if c["skip"] == "swap" else g.op("Add", x, sk)
     if c["bias"] == "post":
         s = addb(s)
+    miss = c.get("miss", "none")  # near-misses: axis spelled 2 / axis attribute absent (default -1) / no beta input
     gamma = g.const(_vec(D, dt, 1), "gamma")
-    beta = g.const(_vec(D, dt, 2), "beta") if c["beta"] else None
+    beta = g.const(_vec(D, dt, 2), "beta") if miss != "nobeta" else None
     kw = {}
-    if c["axis"] != "absent":
-        kw["axis"] = -1 if c["axis"] == "neg" else 2
+    if miss != "axisabsent":
+        kw["axis"] = 2 if miss == "axispos" else -1
     y = g.op("LayerNormalization", s, gamma, beta, epsilon=EPS[c["eps"]], **kw)
     g.out(y, dt, [B, S, D])
     g.out(s, dt, [B, S, D])
@@ -642,15 +644,27 @@ def build_mha(c):
     q3 = addbias(q3, c["bq"], S)
     k3 = addbias(k3, c["bk"], T)
     v3 = addbias(v3, c["bv"], T)
+    if c.get("preq"):  # a scaling of the 3-D query in front of the head split (absorbed by mha_scale.py)
+        q3 = g.op("Mul", q3, g.const(np.array(0.5, npd)))
     shp = g.const(np.array([0, 0, H, Dh], np.int64)) if c.get("rs0", 1) else None
     q4 = g.op("Transpose", g.op("Reshape", q3, shp or g.const(np.array([B, S, H, Dh], np.int64))), perm=[0, 2, 1, 3])
     k4 = g.op("Reshape", k3, shp or g.const(np.array([B, T, H, Dh], np.int64)))
     v4 = g.op("Transpose", g.op("Reshape", v3, shp or g.const(np.array([B, T, H, Dh], np.int64))), perm=[0, 2, 1, 3])
     kf = c["kfmt"]
     outs = []
-    if kf == "t4" or P:
+    if kf == "t4" or P or c.get("rot", "none") != "none":
         k4 = g.op("Transpose", k4, perm=[0, 2, 1, 3])
         kf = "t4"
+    if c.get("rot", "none") != "none":
+        # com.microsoft.RotaryEmbedding already present in the source (as after the rotary/cos_sin_cache fusions)
+        pos = g.inp("position_ids", "i64", [B, S], kind="posids:1")
+        cosc = g.inp("cos", dt, [S + 3, Dh // 2])
+        sinc = g.inp("sin", dt, [S + 3, Dh // 2])
+        ra = {"interleaved": 1} if c["rot"] == "inter" else ({"interleaved": 0} if c["rot"] == "plain0" else {})
+        q4 = g.op("RotaryEmbedding", q4, pos, cosc, sinc, domain="com.microsoft", **ra)
+        g.info(q4, dt, [B, H, S, Dh])
+        k4 = g.op("RotaryEmbedding", k4, pos, cosc, sinc, domain="com.microsoft", **ra)
+        g.info(k4, dt, [B, H, T, Dh])
     Tt = T
     if P:
         pk_ = g.inp("past_key", dt, [B, H, P, Dh], kind="small")
@@ -744,3 +758,301 @@ def build_rotary(c):
 
 
 BUILDERS["rotary"] = build_rotary
+
+
+# =================================================================================================
+# family: gqa (sdpa.py -> gqa.py [-> gqa_packed_qkv.py]) - Phi-style exported attention with shared kv heads,
+# com.microsoft.RotaryEmbedding already present, dynamic sequence dims (as in gqa_test.py)
+# =================================================================================================
+def build_gqa(c):
+    """cfg: dt, B,S,P (past length, 0: no past inputs),H,Hkv,Dh, mask ('causal'|'zeros'|'input'), sc ('default'|'other'),
+    inter (0|1 rotary interleaved attr), packed (bool: q,k,v sliced from one packed input)"""
+    g = GB("gqa")
+    dt = c["dt"]
+    npd = NP[dt]
+    B, S, P, H, Hkv, Dh = c["B"], c["S"], c["P"], c["H"], c["Hkv"], c["Dh"]
+    G = H // Hkv
+    D, Dkv = H * Dh, Hkv * Dh
+    T = S + P
+    i64 = lambda v: g.const(np.array(v, np.int64))  # noqa: E731
+    if c.get("packed"):
+        pk = g.inp("packed_qkv", dt, ["B", "S", D + 2 * Dkv], kind="small")
+        ax, st = i64([2]), i64([1])
+        query = g.op("Slice", pk, i64([0]), i64([D]), ax, st)
+        key = g.op("Slice", pk, i64([D]), i64([D + Dkv]), ax, st)
+        value = g.op("Slice", pk, i64([D + Dkv]), i64([INT64_MAX if c.get("endbig", 1) else D + 2 * Dkv]), ax, st)
+        g.info(query, dt, ["B", "S", D])
+        g.info(key, dt, ["B", "S", Dkv])
+        g.info(value, dt, ["B", "S", Dkv])
+        shape_src = pk
+    else:
+        query = g.inp("query", dt, ["B", "S", D], kind="small")
+        key = g.inp("key", dt, ["B", "S", Dkv], kind="small")
+        value = g.inp("value", dt, ["B", "S", Dkv])
+        shape_src = query
+    if P:
+        past_key = g.inp("past_key", dt, ["B", Hkv, "P", Dh], kind="small")
+        past_value = g.inp("past_value", dt, ["B", Hkv, "P", Dh])
+    cos = g.inp("cos", dt, ["M", Dh // 2])
+    sin = g.inp("sin", dt, ["M", Dh // 2])
+    # concrete sizes of the symbolic dims for make_feeds
+    conc = {"B": B, "S": S, "P": P, "M": T + 2}
+    g.feeds_spec = [(n, d, [conc.get(x, x) for x in s], k) for n, d, s, k in g.feeds_spec]
+
+    Bv = g.op("Shape", shape_src, start=0, end=1)
+    Sv = g.op("Shape", shape_src, start=1, end=2)
+    if P:
+        past_len = g.op("Shape", past_key, start=2, end=3)
+        total_len = g.op("Add", past_len, Sv)
+    else:
+        past_len = i64([0])
+        total_len = Sv
+    m1 = i64([-1])
+    shape_BSHDh = g.op("Concat", Bv, Sv, m1, i64([Dh]), axis=0)
+    shape_BSD = g.op("Concat", Bv, Sv, m1, axis=0)
+    shape_BHkvGTDh = g.op("Concat", Bv, i64([Hkv]), i64([G]), total_len, i64([Dh]), axis=0)
+    shape_BHTDh = g.op("Concat", Bv, i64([H]), total_len, i64([Dh]), axis=0)
+
+    q_BSHDh = g.op("Reshape", query, shape_BSHDh)
+    g.info(q_BSHDh, dt, ["B", "S", H, Dh])
+    q_BHSDh = g.op("Transpose", q_BSHDh, perm=[0, 2, 1, 3])
+    k_BSHkvDh = g.op("Reshape", key, shape_BSHDh)
+    g.info(k_BSHkvDh, dt, ["B", "S", Hkv, Dh])
+    k_BHkvSDh = g.op("Transpose", k_BSHkvDh, perm=[0, 2, 1, 3])
+    v_BSHkvDh = g.op("Reshape", value, shape_BSHDh)
+    g.info(v_BSHkvDh, dt, ["B", "S", Hkv, Dh])
+    v_BHkvSDh = g.op("Transpose", v_BSHkvDh, perm=[0, 2, 1, 3])
+
+    pos1d = g.op("Range", g.op("Squeeze", past_len), g.op("Squeeze", total_len), g.const(np.array(1, np.int64)))
+    pos = g.op("Unsqueeze", pos1d, i64([0]))
+    if B > 1:
+        pos = g.op("Tile", pos, g.op("Concat", Bv, i64([1]), axis=0))
+    rattr = {"interleaved": 1} if c["inter"] else {}
+    q_rope = g.op("RotaryEmbedding", q_BHSDh, pos, cos, sin, domain="com.microsoft", **rattr)
+    g.info(q_rope, dt, ["B", H, "S", Dh])
+    k_rope = g.op("RotaryEmbedding", k_BHkvSDh, pos, cos, sin, domain="com.microsoft", **rattr)
+    g.info(k_rope, dt, ["B", Hkv, "S", Dh])
+    if P:
+        k_seq = g.op("Concat", past_key, k_rope, axis=-2)
+        v_seq = g.op("Concat", past_value, v_BHkvSDh, axis=-2)
+    else:
+        k_seq, v_seq = k_rope, v_BHkvSDh
+    k_exp = g.op("Expand", g.op("Unsqueeze", k_seq, i64([2])), shape_BHkvGTDh)
+    k_BHTDh = g.op("Reshape", k_exp, shape_BHTDh)
+    g.info(k_BHTDh, dt, ["B", H, "T", Dh])
+    v_exp = g.op("Expand", g.op("Unsqueeze", v_seq, i64([2])), shape_BHkvGTDh)
+    v_BHTDh = g.op("Reshape", v_exp, shape_BHTDh)
+    g.info(v_BHTDh, dt, ["B", H, "T", Dh])
+
+    # mask [B,1,S,T]
+    seq0 = g.op("Squeeze", Sv)
+    past0 = g.op("Squeeze", past_len)
+    tot0 = g.op("Add", past0, seq0)
+    tot1 = g.op("Reshape", tot0, i64([-1]))
+    cur = g.op("Range", past0, tot0, g.const(np.array(1, np.int64)))
+    mshape = g.op("Concat", Sv, tot1, axis=0)
+    if c["mask"] == "input":
+        mk = g.inp("mask_in", dt, [conc["S"], T], kind="mask")
+        m2 = g.op("Neg", g.op("Neg", mk))
+    else:
+        minv = g.const(np.array([np.finfo(npd).min], npd), "min_val")
+        allmin = g.op("Expand", minv, mshape)
+        row = g.op("Range", g.const(np.array(0, np.int64)), tot0, g.const(np.array(1, np.int64)))
+        col = g.op("Reshape", cur, i64([-1, 1]))
+        if c["mask"] == "causal":
+            bm = g.op("Greater", row, col)
+        else:  # 'zeros': nothing is masked (bidirectional attention)
+            bm = g.op("Less", row, g.op("Sub", col, g.op("Add", col, g.const(np.array(1, np.int64)))))
+        m2 = g.op("Mul", allmin, g.op("Cast", bm, to=DT[dt]))
+    m4 = g.op("Unsqueeze", m2, i64([0, 1]))
+    mask = g.op("Expand", m4, g.op("Concat", Bv, i64([1]), i64([1]), i64([1]), axis=0))
+    g.info(mask, dt, ["B", 1, "S", "T"])
+
+    kt = g.op("Transpose", k_BHTDh, perm=[0, 1, 3, 2])
+    g.info(kt, dt, ["B", H, Dh, "T"])
+    total = (1.0 / np.sqrt(Dh)) if c["sc"] == "default" else 0.3
+    f = float(np.sqrt(total))
+    sq = g.op("Mul", q_rope, g.const(np.array(f, npd)))
+    sk = g.op("Mul", kt, g.const(np.array(f, npd)))
+    score = g.op("Add", g.op("MatMul", sq, sk), mask)
+    w = g.op("Softmax", score, axis=-1)
+    a = g.op("MatMul", w, v_BHTDh)
+    at = g.op("Transpose", a, perm=[0, 2, 1, 3])
+    y = g.op("Reshape", at, shape_BSD)
+    g.out(y, dt, ["B", "S", D])
+    g.out(k_seq, dt, ["B", Hkv, "T", Dh])
+    g.out(v_seq, dt, ["B", Hkv, "T", Dh])
+    return g
+
+
+BUILDERS["gqa"] = build_gqa
+
+
+# =================================================================================================
+# conformance: replay the cases printed by TLC
+# =================================================================================================
+import json
+import os
+import random
+import re
+import sys
+import threading
+import traceback
+
+from . import core
+
+LEVEL = "model_checking"
+FUSION_DOMAIN_OR_CONTRIB = re.compile(r"^(com\.microsoft|ai\.onnxruntime\._fusion)::")
+WATCH_DEFAULT_DOMAIN = {"SimplifiedLayerNormalization", "Gelu"}
+
+
+def watched(census):
+    return {k: v for k, v in census.items() if FUSION_DOMAIN_OR_CONTRIB.match(k) or k in WATCH_DEFAULT_DOMAIN}
+
+
+def status_of(before, st, out, dt):
+    """observable of the fused model relative to the original one"""
+    if st == "ok":
+        d = compare(before, out, dt)
+        return ("same", "") if d is None else ("diff", d)
+    cls = st.split(":", 1)[1]
+    if cls == "NOT_IMPLEMENTED":
+        return "nokernel", out
+    return "reject", f"{st}: {out}"
+
+
+def replay_cfg(item):
+    """item = (cfg, [case, ...]) - cases of one configuration (one per mode).  Returns list of result dicts."""
+    import warnings
+
+    warnings.filterwarnings("ignore")
+    import logging
+
+    logging.disable(logging.CRITICAL)
+    import onnxruntime as ort
+
+    ort.set_default_logger_severity(4)
+    cfg, cases, seed = item
+    fam = cfg["fam"]
+    dt = cfg.get("dt", "f32")
+    res = []
+    try:
+        g = BUILDERS[fam](cfg)
+        m = g.model()
+        onnx.checker.check_model(m)
+        m = onnx.shape_inference.infer_shapes(m)
+        feeds = make_feeds(g, np.random.default_rng(seed))
+        st, before = run_ort(m, feeds)
+    except Exception as e:  # noqa: BLE001
+        return [{"harness_error": f"{type(e).__name__}: {e}\n{traceback.format_exc()[-1200:]}"} for _ in cases]
+    if st != "ok":
+        return [{"discard": f"original model not runnable: {st} {before}"} for _ in cases]
+    c0 = op_census(m)
+    for case in cases:
+        steps = list(case["steps"]) if case["mode"] == "chain" else ["optimize_for_ort"]
+        r = {}
+        try:
+            import io
+            import contextlib
+
+            with contextlib.redirect_stdout(io.StringIO()), contextlib.redirect_stderr(io.StringIO()):
+                m2, counts = apply_steps(m, steps)
+        except Exception as e:  # noqa: BLE001
+            root = e
+            while root.__cause__ is not None:
+                root = root.__cause__
+            r["status"] = "raise"
+            r["detail"] = f"{type(root).__name__}: {root}"[:300]
+            r["counts"] = {}
+            r["ops"] = {}
+            res.append(r)
+            continue
+        c1 = op_census(m2)
+        if "ort_rules" in steps:
+            counts["ort_rules"] = int(c1 != c0)
+        r["counts"] = {k: v for k, v in counts.items() if v}
+        r["ops"] = watched(c1)
+        st2, after = run_ort(m2, feeds)
+        r["status"], r["detail"] = status_of(before, st2, after, dt)
+        res.append(r)
+    return res
+
+
+# ------------------------------------------------------------------ fused MatMul family (spec/FusedMatMul.tla)
+def mm_cfg(init):
+    return {"fam": "matmul", "dt": "f32", "rank": init["rank"], "M": init["dims"][0], "K": init["dims"][1], "N": init["dims"][2],
+            "ta": init["ta"], "tb": init["tb"], "div": init["div"], "tout": init["tout"], "divfirst": init["divfirst"]}
+
+
+def mm_term(model_proto):
+    """alpha: the real model -> the abstract term of FusedMatMul.tla (None if the graph has no single MatMul/FusedMatMul)"""
+    g = model_proto.graph
+    core_nodes = [n for n in g.node if n.op_type in ("MatMul", "FusedMatMul")]
+    if len(core_nodes) != 1:
+        return None
+    core_n = core_nodes[0]
+    prod = {o: n for n in g.node for o in n.output}
+    at = {a.name: helper.get_attribute_value(a) for a in core_n.attribute}
+
+    def side(name):
+        p = prod.get(name)
+        if p is None:
+            return name, "none"
+        if p.op_type != "Transpose":
+            return "?", p.op_type
+        return p.input[0], ("perm" if any(a.name == "perm" for a in p.attribute) else "noperm")
+
+    lsrc, ltr = side(core_n.input[0])
+    rsrc, rtr = side(core_n.input[1])
+    idx = list(g.node).index(core_n)
+    npost = sum(1 for n in list(g.node)[idx + 1:] if n.op_type in ("Div", "Transpose"))
+    alpha = float(at.get("alpha", 1.0))
+    k = int(round(np.log(alpha) / np.log(0.25))) if alpha > 0 else -1
+    return {"fused": core_n.op_type == "FusedMatMul",
+            "flags": {f: int(at.get(f, 0)) for f in ("transA", "transB", "transBatchA", "transBatchB")},
+            "k": k, "swapped": lsrc == "b", "ltr": ltr, "rtr": rtr, "npost": npost}
+
+
+def replay_mm(item):
+    import warnings
+
+    warnings.filterwarnings("ignore")
+    import logging
+
+    logging.disable(logging.CRITICAL)
+    import onnxruntime as ort
+
+    ort.set_default_logger_severity(4)
+    init, seed = item
+    cfg = mm_cfg(init)
+    try:
+        g = build_matmul(cfg)
+        m = g.model()
+        onnx.checker.check_model(m)
+        m = onnx.shape_inference.infer_shapes(m)
+        feeds = make_feeds(g, np.random.default_rng(seed))
+        st, before = run_ort(m, feeds)
+    except Exception as e:  # noqa: BLE001
+        return {"harness_error": f"{type(e).__name__}: {e}\n{traceback.format_exc()[-1200:]}"}
+    if st != "ok":
+        return {"discard": f"original model not runnable: {st} {before}"}
+    out = {}
+    for mode, steps in (("chain", ["ort_rules"]), ("ort", ["optimize_for_ort"])):
+        r = {}
+        try:
+            import contextlib
+            import io
+
+            with contextlib.redirect_stdout(io.StringIO()), contextlib.redirect_stderr(io.StringIO()):
+                m2, _ = apply_steps(m, steps)
+        except Exception as e:  # noqa: BLE001
+            root = e
+            while root.__cause__ is not None:
+                root = root.__cause__
+            out[mode] = {"status": "raise", "detail": f"{type(root).__name__}: {root}"[:300], "term": None}
+            continue
+        r["term"] = mm_term(m2)
+        st2, after = run_ort(m2, feeds)
+        r["status"], r["detail"] = status_of(before, st2, after, "f32")
+        out[mode] = r
+    return out
